@@ -403,8 +403,13 @@ def subsolver_case(solver=None, clause=None, case=None, **_):
             d[k] = a
         else:
             d[k] = v
+    d.pop("exception", None)
     with np.errstate(all="ignore"):
-        res = dict(CLAUSES[solver](d))
+        try:
+            res = dict(CLAUSES[solver](d))
+            res[f"C15.{solver}.returns_without_exception"] = True
+        except Exception as e:  # noqa
+            res = {f"C15.{solver}.returns_without_exception": False, "exception": repr(e)}
     return {"reproduced": res.get(clause) is False, "observed": {"clauses": res}, "required": clause}
 
 
@@ -494,3 +499,50 @@ def finite_filter(seq=None, filter_size=2, **_):
             elif [int(e[2]) for e in after] != [int(e[2]) for e in before]:
                 return {"reproduced": True, "observed": obs, "required": "a rejected point leaves the filter unchanged"}
     return {"reproduced": False}
+
+
+# ---- C18: TrustRegion.set_best_index on concrete value tables ---------------------------------------------------------------------------
+def best_index_audit(fun=None, cub=None, ceq=None, penalty=0.0, best0=0, **_):
+    """A TrustRegion shell around concrete tables (npt points; nonlinear inequality / equality values only, no bounds or linear
+    constraints so that violation = [max(cub, 0), |ceq|]); after the real set_best_index the centre must have the least merit value up
+    to the rounding tolerance the method itself uses, and among the points whose merit value is within that tolerance of the centre's
+    none may have been passed over in favour of a larger violation at the moment it was compared (audited by replaying the documented
+    rule on independently computed merit values / violations)."""
+    import types
+    from cobyqa.framework import TrustRegion
+    fun = np.array([F(v) for v in fun], dtype=float)
+    cub = np.array([[F(v) for v in r] for r in cub], dtype=float).reshape(len(fun), -1)
+    ceq = np.array([[F(v) for v in r] for r in ceq], dtype=float).reshape(len(fun), -1)
+    npt, n = len(fun), 2
+    pen = float(F(penalty))
+
+    def viol(k):
+        return np.concatenate([np.maximum(cub[k], 0.0), np.abs(ceq[k])])
+
+    class PB:
+        def violation(self, x, cub_val=None, ceq_val=None):
+            return np.concatenate([np.maximum(cub_val, 0.0), np.abs(ceq_val)])
+
+        def maxcv(self, x, cub_val=None, ceq_val=None):
+            return float(np.max(self.violation(x, cub_val, ceq_val), initial=0.0))
+    tr = TrustRegion.__new__(TrustRegion)
+    tr._pb = PB()
+    tr._penalty = pen
+    tr._best_index = int(best0)
+    xpt = np.arange(npt * n, dtype=float).reshape(n, npt)
+    tr._models = types.SimpleNamespace(n=n, npt=npt, fun_val=fun, cub_val=cub, ceq_val=ceq,
+                                       interpolation=types.SimpleNamespace(point=lambda k: xpt[:, k].copy(), x_base=np.zeros(n), xpt=xpt))
+    tr.set_best_index()
+    got = int(tr._best_index)
+    # independent replay of the documented rule
+    merit = [fun[k] + (pen * np.linalg.norm(viol(k)) if pen > 0 and np.count_nonzero(viol(k)) else 0.0) for k in range(npt)]
+    rv = [float(np.max(viol(k), initial=0.0)) for k in range(npt)]
+    b = int(best0)
+    mb, rb = merit[b], rv[b]
+    tol = 10.0 * np.finfo(float).eps * max(n, npt) * max(abs(mb), 1.0)
+    for k in range(npt):
+        if k != int(best0) and (merit[k] < mb or (merit[k] < mb + tol and rv[k] < rb)):
+            b, mb, rb = k, merit[k], rv[k]
+    ok = got == b
+    return {"reproduced": not ok, "observed": {"best_index": got, "expected": b, "merit": [float(v) for v in merit], "violation": rv},
+            "required": "the centre is the least-merit point, ties within rounding to the smaller violation (documented scan order)"}
